@@ -37,9 +37,10 @@ def oracle(case, reply):
     if reply.startswith("ok ") and case.get("probes"):
         h = reply[3:]
         out = bytes.fromhex(h) if h != "-" else b""
-        ins = R.decode(out)
-        probes = ins[-case["probes"]:]
-        for off, op, imm in probes:
+        k = case["probes"]
+        tail = out[len(out) - 4 * k:]
+        for j in range(k):
+            op, imm = tail[4 * j], tail[4 * j + 1:4 * j + 4]
             if op != 0x62:
                 return "probe push3 not found at the end of the output"
             v = int.from_bytes(imm, "big")
